@@ -37,6 +37,12 @@ def main():
     checks = sys.argv[4:] or [prop]
     tier = os.environ.get("SEED_TIER", "quick")
     dest = os.path.join(VERIF, "seeded", name)
+    if os.path.realpath(src) == os.path.realpath(dest):
+        # re-evaluation of a stored seed: stage its sources outside before the directory is rewritten
+        stage = "/tmp/seedeval/_stage_" + name
+        shutil.rmtree(stage, ignore_errors=True)
+        shutil.copytree(src, stage)
+        src = stage
     shutil.rmtree(dest, ignore_errors=True)
     os.makedirs(dest)
     shutil.copy(os.path.join(src, "patch.diff"), dest)
